@@ -2,6 +2,7 @@
 From Coq Require Import List Arith NArith ZArith.
 Require Import CU.model.Prim CU.model.Types CU.model.Codec CU.model.Block CU.model.Vbs CU.model.Iso CU.model.Ipm.
 Require Import CU.spec.FramingSpec CU.spec.IsoSpec CU.proofs.IpmProofs.
+Require CU.gen.GenConfig.
 Import ListNotations.
 
 (* a decoded record agrees with the message written: the two clauses of C01 *)
@@ -39,3 +40,19 @@ End C06.
 
 Print Assumptions C06_roundtrip.
 Print Assumptions C06_isolation.
+
+(* non-vacuity: a two-message blocked file for the packaged configuration under cp500 reads back as two records *)
+Example C06_example :
+  match codec_named [99;112;53;48;48]%N with
+  | Some cd =>
+    let m1 := [(KMTI, VStr [49;50;52;48]%N); (KDE 2, VStr [52;52;52;52;53;53;53;53;54;54;54;54;55;55;55;55]%N); (KDE 4, VInt 9999)] in
+    let m2 := [(KMTI, VStr [49;50;52;48]%N); (KPDS [48;49;52;56]%N, VStr [65;66]%N)] in
+    match ipm_file 1012 CU.gen.GenConfig.packaged_bit_config cd true [m1; m2] with
+    | Ok f => match iread_all 1012 6000 CU.gen.GenConfig.packaged_bit_config cd f true with
+              | Ok (ds, End) => length f = 1014 /\ length ds = 2 /\ lookup (nth 1 ds []) (KPDS [48;49;52;56]%N) = Some (VStr [65;66]%N)
+                                /\ lookup (nth 0 ds []) (KDE 4) = Some (VInt 9999)
+              | _ => False end
+    | _ => False end
+  | None => False
+  end.
+Proof. vm_compute. auto. Qed.
